@@ -17,6 +17,8 @@ import sys
 import time
 
 VERIF = os.path.dirname(os.path.dirname(os.path.abspath(__file__)))
+COPY = os.environ.get('SEEDTEST_COPY', '/tmp/vseed')      # the copy of the committed /verif the checks run from
+REV = os.environ.get('SEEDTEST_REV', 'HEAD')              # which commit of /verif (builders may be mid-commit on HEAD)
 
 
 def sh(cmd, cwd=None, env=None, timeout=3600):
@@ -55,17 +57,18 @@ def main():
         meta['pinned_suite'] = out.strip()
         # copy of /verif
         # a copy of the COMMITTED /verif (other engineers may be mid-edit in the working tree) + the build cache
-        sh('rm -rf /tmp/vseed.new && mkdir -p /tmp/vseed.new /tmp/vseed && git -C %s archive HEAD | tar -x -C /tmp/vseed.new '
-           '&& rsync -a --delete --exclude lean/.lake --exclude lean/RTV/Gen --exclude replays --exclude .cache --exclude .scratch '
-           '/tmp/vseed.new/ /tmp/vseed/ && rm -rf /tmp/vseed.new' % VERIF)
-        if not os.path.exists('/tmp/vseed/lean/.lake'):
-            sh('rsync -a %s/lean/.lake /tmp/vseed/lean/ ; rsync -a %s/lean/RTV/Gen /tmp/vseed/lean/RTV/' % (VERIF, VERIF))
+        cmd = ('rm -rf COPY.new && mkdir -p COPY.new COPY && git -C VERIF archive REV | tar -x -C COPY.new '
+               '&& rsync -a --delete --exclude lean/.lake --exclude lean/RTV/Gen --exclude replays --exclude .cache --exclude .scratch '
+               'COPY.new/ COPY/ && rm -rf COPY.new')
+        sh(cmd.replace('COPY', COPY).replace('REV', REV).replace('VERIF', VERIF))
+        if not os.path.exists(COPY + '/lean/.lake'):
+            sh('rsync -a %s/lean/.lake %s/lean/ ; rsync -a %s/lean/RTV/Gen %s/lean/RTV/' % (VERIF, COPY, VERIF, COPY))
         env = dict(os.environ)
         # what MANIFEST.setup_cmd does, on the clean tree: regenerate every Gen file and build everything once
         if not os.environ.get('SEEDTEST_SKIP_SETUP'):
             sh('git -C %s stash -q' % wt)
             env0 = dict(os.environ); env0['VERIF_REPO'] = wt
-            rc0, out0 = sh('/tmp/vseed/harness/setup.sh', env=env0, timeout=3000)
+            rc0, out0 = sh('' + COPY + '/harness/setup.sh', env=env0, timeout=3000)
             sh('git -C %s stash pop -q' % wt)
             meta['setup_rc'] = rc0
             if rc0 != 0:
@@ -73,7 +76,7 @@ def main():
         env['VERIF_REPO'] = wt
         for cid in [pid] + extra:
             t0 = time.time()
-            rc, out = sh('/tmp/vseed/harness/vcheck %s quick' % cid, env=env, timeout=3000)
+            rc, out = sh('' + COPY + '/harness/vcheck %s quick' % cid, env=env, timeout=3000)
             lines = [l for l in out.splitlines() if l.startswith('VIOLATION') or l.startswith('INFRA')]
             summary = out.strip().splitlines()[-1] if out.strip() else ''
             replays = []
